@@ -72,6 +72,15 @@ def gen_cases(tier, seed):
                             "sub": int(rng.integers(1 << 31)),
                         }
                     )
+    # very small samples (an interval of a joint fit may hold a handful of points): the fixed value stays whatever n is
+    trng = np.random.default_rng([seed, 11, 6])
+    for fam, k, val in (("weibull", "gamma", 0.5), ("weibull", "gamma", -0.3), ("normal", "mu", 1.7), ("lognormal", "sigma", 0.4), ("expweib", "delta", 2.5), ("gumbel_r", "loc", 0.8)):
+        if fam not in S.ALL_FAMS:
+            continue
+        for n_ in (3, 4, 5, 8):
+            gen = S.draw_params(trng, fam, S.RANGE)
+            gen[k] = float(val)
+            cases.append({"fam": fam, "fixed": {k: gen[k]}, "gen": gen, "method": "mle", "weights": None, "source": "own", "n": n_, "tiny": True, "sub": int(trng.integers(1 << 31))})
     # every single fixed positive parameter once next to the special value 1 (and once next to its default)
     nrng = np.random.default_rng([seed, 11, 5])
     for fam in S.ALL_FAMS:
@@ -217,6 +226,9 @@ def run_case(case, ctx):
         raised = e
     except Exception as e:  # noqa: BLE001
         raised = e
+    if raised is not None and case.get("tiny"):
+        ctx.count(f"c11.tiny-sample-fit-raised[{type(raised).__name__}]")  # (a handful of points may not be fittable: reported, not judged)
+        return
     if raised is not None:
         if isinstance(raised, NotImplementedError) and not supported:
             ctx.count("c11.unsupported-subset-rejected")
@@ -235,6 +247,9 @@ def run_case(case, ctx):
     after = d.parameters
     okf = all(abs(after[k] - v) <= 1e-12 * max(1.0, abs(v)) for k, v in fixed.items())
     ctx.check("c11.fixed-after-fit", okf, f"{fam}: fixed parameter changed by fit", "vonmises-init-ignores-fixed" if (fam == "vonmises" and not ok) else None, after=after, **info)
+    if case.get("tiny"):
+        ctx.check("c11.f-attribute-kept", all(getattr(d, f"f_{k}") == v for k, v in fixed.items()), f"{fam}: f_<name> attribute altered by fit", **info)
+        return
     free = [k for k in names if k not in fixed]
     fin = all(np.isfinite(after[k]) for k in free)
     # admissibility of estimates is C12's clause (data from the family); for arbitrary data only finiteness is required here
